@@ -122,6 +122,56 @@ def rule_e4(chk, prog, em, tool, seen):
     return n
 
 
+def rule_e4_replaced(chk, prog, em, tool, seen):
+    """E4-replaced: outside loops too, a status is looked at before something else is put in its place.  The result r of a
+    call that can fail meets, in a phi, the result r2 of another call that was made *behind* it on a way on which r was not
+    examined (`ret = pack(); if (cwd >= 0) ret = go_back(cwd); return ret;`): on that way a failure of the first call is
+    replaced by the success of the second.  A constant error code in place of r2 is fine (the way ends in failure anyway)."""
+    n = 0
+    for f in prog.functions():
+        for c in f.calls():
+            if not em.call_is_err(c):
+                continue
+            # r itself (through casts) must reach a phi directly
+            carr, work = [c], [c]
+            while work:
+                v = work.pop()
+                for u in f.uses.get(v, []):
+                    if u.op in ("sext", "zext", "trunc") and all(u is not x for x in carr):
+                        carr.append(u)
+                        work.append(u)
+            phis = [u for v in carr for u in f.uses.get(v, []) if u.op == "phi"]
+            if not phis:
+                continue
+            tests = [u for v in carr for u in f.uses.get(v, []) if u.op in ("icmp", "switch")]
+            for p in phis:
+                for val, pb in zip(p.ops, p.x["inc"]):
+                    x = val
+                    while x.is_inst and x.op in ("sext", "zext", "trunc"):
+                        x = x.ops[0]
+                    if any(x is y for y in carr) or not (x.is_inst and x.op == "call") or x is c:
+                        continue
+                    if not em.call_is_err(x):
+                        continue
+                    # the other call is made behind c ...
+                    if not (f.inst_dominates(c, x)):
+                        continue
+                    # ... on a way on which r was not examined
+                    if any(f.inst_dominates(t, x) for t in tests):
+                        continue
+                    key = (f.unit.src, f.name, c.line, c.col, x.line)
+                    if key in seen:
+                        continue
+                    seen.add(key)
+                    n += 1
+                    chk.analysed(f)
+                    inst = "%s:%s/%s" % (f.name, norm_callee(c.callee) or "indirect", norm_callee(x.callee) or "indirect")
+                    chk.violation("E4-replaced", inst, x, "the status of %s (line %d) is replaced by the status of %s without having been "
+                                  "looked at: a failure of the first call followed by a success of the second is reported as "
+                                  "success" % (norm_callee(c.callee) or "the call", c.line, norm_callee(x.callee) or "this call"))
+    return n
+
+
 def _known_nonpositive(f, v, b):
     """on the way to block b (where v is selected as the return value) a test  v > 0  has failed"""
     facts = list(f.guards_at(b))
@@ -1400,10 +1450,11 @@ def run(chk):
         "to) before it is dereferenced, and realloc never overwrites the only copy unchecked; packers: every exit after a "
         "successful sqfs_writer_init passes sqfs_writer_cleanup, EXIT_SUCCESS only from the success edge of "
         "sqfs_writer_finish, cleanup unlinks on failure; all four mains: exit status 0 unreachable from every failure "
-        "edge; submit failures propagate. Further rules: E4 (an error result obtained in a loop is examined before the next iteration replaces it), E5 (results of tri-state functions are not collapsed to ==0), E6 (an error edge does not return a regular value), E9 (every failure of a fault source or of a libsquashfs/libutil call in tool-level code is reported on stderr there or on every way up to main's exit: bottom-up summary of functions that hand a failure on unreported, path enumeration from the call under the assumption that it failed), E8 (a failing call in a loop whose result is only compared with 0 does not lead round the loop to the next attempt without a trace), E7 (no path from an allocation-failure edge or a negative-result edge returns 0 / a status variable pinned to 0: path enumeration with phis resolved by edge and loads by the last store), init-unlinks and chdir-undone under K1-cleanup. K6-capagree: where an allocation failure is survived by asking for less, the capacity recorded is the one the allocation that succeeded was sized for; E7 does not report a failure that a second allocation on the path made good. K8-freestack: a pointer that can name a local array on some way into free() is released only behind a test that excludes the array. E7 also takes the NULL answer of the project's own constructors (functions whose every NULL return lies behind a tested call result) as a failure edge.")
+        "edge; submit failures propagate. Further rules: E4 (an error result obtained in a loop is examined before the next iteration replaces it), E5 (results of tri-state functions are not collapsed to ==0), E6 (an error edge does not return a regular value), E9 (every failure of a fault source or of a libsquashfs/libutil call in tool-level code is reported on stderr there or on every way up to main's exit: bottom-up summary of functions that hand a failure on unreported, path enumeration from the call under the assumption that it failed), E8 (a failing call in a loop whose result is only compared with 0 does not lead round the loop to the next attempt without a trace), E7 (no path from an allocation-failure edge or a negative-result edge returns 0 / a status variable pinned to 0: path enumeration with phis resolved by edge and loads by the last store), init-unlinks and chdir-undone under K1-cleanup. K6-capagree: where an allocation failure is survived by asking for less, the capacity recorded is the one the allocation that succeeded was sized for; E7 does not report a failure that a second allocation on the path made good. E4-replaced: outside loops too, the status of a call that can fail is not replaced by the status of a later call on a way on which it was not looked at. K8-freestack: a pointer that can name a local array on some way into free() is released only behind a test that excludes the array. E7 also takes the NULL answer of the project's own constructors (functions whose every NULL return lies behind a tested call result) as a failure edge.")
     chk.assumptions = ["that the handling of a consumed error is *right* is not decided, only that the error reaches a decision"]
     seen1, seen2, seen3, seen4, seen5, seen6, seen7 = set(), set(), set(), set(), set(), set(), set()
     seen8, seen9, seen10 = set(), set(), set()
+    seen5r = set()
     n1 = n3 = 0
     for tool in TOOLS:
         prog = load_program(tool)
@@ -1411,6 +1462,7 @@ def run(chk):
         n1 += rule_e1(chk, prog, em, tool, seen1)
         rule_e2(chk, prog, em, tool, seen2)
         rule_e4(chk, prog, em, tool, seen5)
+        rule_e4_replaced(chk, prog, em, tool, seen5r)
         rule_e5(chk, prog, em, tool, seen6)
         rule_e6(chk, prog, em, tool, seen7)
         rule_e7(chk, prog, em, tool, seen8)
@@ -1476,6 +1528,10 @@ def controls(chk):
     rule_e8(sub, prog, em, "ctl", set())
     got = {(o["rule"], o["function"]) for o in sub.obl if o["verdict"] == "VIOLATED"}
     chk.control("E8", ("E8", "ctl_try_next") in got, "failure taken for 'try the next candidate'")
+    rule_e4_replaced(sub, prog, em, "ctl", set())
+    got = {(o["rule"], o["function"]) for o in sub.obl if o["verdict"] == "VIOLATED"}
+    chk.control("E4-replaced", ("E4-replaced", "ctl_replaced") in got, "status replaced by a later status unexamined")
+    chk.control("E4-replaced/silent", ("E4-replaced", "ctl_replaced_checked") not in got, "a status that was tested first must not be reported")
     from ..dangling import run_free_stack
     run_free_stack(sub, prog, "K8-freestack", lambda src: True)
     got = {(o["rule"], o["function"]) for o in sub.obl if o["verdict"] == "VIOLATED"}
